@@ -14,6 +14,7 @@ GenTol    == 10    \* 1e-6 units per matrix entry: products of <= 3 logged cosin
 CorrTol   == 2     \* 1e-6 units per row/column maximum of a logged cosine matrix
 MetricTol == 2     \* 1e-6 units on a rational error metric
 MetricTolF32 == 100  \* float32 data (offset 2^10, spread <= 3): mean rounded to 2^-14, ~1e-6 relative per operation
+LevSumTol == 10    \* 1e-12 units on (float64 sum of the returned vector) - 1
 LevTol    == 2     \* 1e-8 units per leverage score (sum: rows + LevTol)
 SqTol(v)  == 2 * (AbsI(v) \div 1000000) + 4     \* on v^2 when v carries half a unit of rounding error
 
@@ -72,6 +73,7 @@ ExactPermuteV2(c, r, meas) ==
     IF r.raised THEN "PermuteRaised"
     ELSE IF r.target \notin {"A", "B"} \/ r.ref \notin {"A", "B"} THEN "PermuteTarget"
     ELSE IF ~PermOK(r.perm, c.R) THEN "PermutePerm"
+    ELSE IF r.alias THEN "PermuteAliasesInput"     \* "permuted cp tensor": a new tensor, not a view of the caller's arrays
     ELSE LET X  == IF r.target = "B" THEN c.B ELSE c.A
              Rf == IF r.ref = "B" THEN c.B ELSE c.A
              wX == IF r.target = "B" THEN c.w ELSE [j \in 1..c.R |-> 1]
@@ -231,6 +233,7 @@ GenPermuteV(e, r) ==
     LET R == e.cfg.R IN
     IF r.raised THEN "PermuteRaised"
     ELSE IF ~PermOK(r.perm, R) THEN "PermutePerm"
+    ELSE IF r.alias THEN "PermuteAliasesInput"
     ELSE IF ~r.eqf THEN "PermuteFactors"
     ELSE IF ~r.eqw THEN "PermuteWeights"
     ELSE With(GenW(e, TRUE), LAMBDA W :
@@ -290,6 +293,8 @@ LevCommonV(out, rows) ==
     ELSE IF \E k \in 1..rows : ~IsFin(out.vals[k]) THEN "Finite"
     ELSE IF ~out.nneg \/ \E k \in 1..rows : out.vals[k] < 0 THEN "NonNegative"
     ELSE IF AbsI(SumSeq(out.vals) - 100000000) > rows + LevTol THEN "SumsToOne"
+    \* "always returns the distribution in double precision" so that rng.choice accepts it: the float64 sum is 1
+    ELSE IF ~IsFin(out.sumdev) \/ AbsI(out.sumdev) > LevSumTol THEN "SumsToOneDouble"
     ELSE "ok"
 LevV(e) == IF ~ValidLev(e.cfg) THEN "InDomain" ELSE LevCommonV(e.out, e.cfg.rows)
 LevExactV(e) ==
